@@ -405,6 +405,15 @@ impl Pager {
         Ok(id)
     }
 
+    /// First page id beyond every page handed out so far.
+    pub(crate) fn next_page_id(&self) -> u64 {
+        self.meta.next_page_id
+    }
+
+    pub(crate) fn is_allocated(&self, page_id: PageId) -> bool {
+        page_id.as_u64() < BITMAP_BITS && self.bitmap.is_allocated(page_id)
+    }
+
     pub fn allocate_page(&mut self) -> Result<PageId> {
         let max_pages = BITMAP_BITS;
         let candidate = self
